@@ -405,11 +405,13 @@ fn step(w: &mut World, kinds: &[Kind], st: &Step, flags: &mut Flags) -> Option<(
                         // the command names database d: a session that selected another one has no credential for it
                         Expect::Refuse
                     } else {
+                        // (the property says when a resolve must NOT act; a permitted one may still be refused: since the
+                        // resolve repair of round 9 it is, on every database that has no arbiter strategy)
                         match &user_perms {
-                            None => Expect::Accept,
+                            None => Expect::Either,
                             Some(p) => {
                                 flags.pattern_decided = true;
-                                if grants(p, 'w', key) { Expect::Accept } else { Expect::Refuse }
+                                if grants(p, 'w', key) { Expect::Either } else { Expect::Refuse }
                             }
                         }
                     }
